@@ -85,7 +85,7 @@ class C20(Check):
             'non-trivial = rows > dump batch_size (several batches written); distinct = hash of the case')
     ASSUMPTIONS = ['pyarrow is trusted as parquet codec and as the independent reader']
     ANCHORS = ['rxsci/container/parquet.py', 'rxsci/data/batch.py']
-    REQUIRED_TAGS = FILE_NAME_TAGS + ['none', 'snappy', 'gzip', 'zstd', 'rows=0', 'rows<b', 'rows=b', 'rows=kb', 'rows%b!=0', 'path', 'fileobj',
+    REQUIRED_TAGS = FILE_NAME_TAGS + ['loader-built-before-the-dump', 'target-exists-empty'] + ['none', 'snappy', 'gzip', 'zstd', 'rows=0', 'rows<b', 'rows=b', 'rows=kb', 'rows%b!=0', 'path', 'fileobj',
                      'nested', 'required', 'dictattr', 'row_group', 'rows-with-mixed_order', 'rows-with-mixed_extra', 'rows-with-reversed', 'pushed-source', 'after-a-failed-dump', 'numpy-typed-batch-size', 'file-object-not-at-position-0']
     REQUIRED_OBSERVED = ['rows_compared_rxsci_reader', 'rows_compared_pyarrow_reader']
 
@@ -151,6 +151,15 @@ class C20(Check):
             kw['batch_size'] = numpy.int64(b)       # a batch size computed with numpy
             out.tags.append('numpy-typed-batch-size')
         kwl = [(k_, kw[k_]) for k_ in ('schema', 'batch_size', 'row_group_size', 'compression')]     # documented order
+        early = {}
+        if case['target'] == 'path' and (n + b) % 2:
+            # observables are lazy: the loaders are BUILT before the dump runs - the target absent, or present and empty - and
+            # subscribed after it (rx.concat(dump, load); a loader built once and subscribed after every dump)
+            if (n + b) % 4 == 1:
+                open(path, 'wb').close()
+                out.tags.append('target-exists-empty')
+            out.tags.append('loader-built-before-the-dump')
+            early = {lb: call(P.load_from_file, [('filename', path), ('batch_size', lb)]) for lb in case['load_batches']}
         if case['target'] == 'path' and n % 2:
             from ..progs import dump_pushed
             out.tags.append('pushed-source')
@@ -208,7 +217,7 @@ class C20(Check):
             return out.fail('dump-changed-the-rows-it-was-given', before=rows_before[:300], after=repr(src_rows)[:300])
         for lb in case['load_batches']:
             if case['target'] == 'path':
-                g = subscribe2(call(P.load_from_file, [('filename', path), ('batch_size', lb)]), out, 'load_from_file', same=lambda x, y: repr(x) == repr(y), abuse=(lb == case['load_batches'][0]))
+                g = subscribe2(early.get(lb) or call(P.load_from_file, [('filename', path), ('batch_size', lb)]), out, 'load_from_file', same=lambda x, y: repr(x) == repr(y), abuse=(lb == case['load_batches'][0]))
             else:
                 with open(path, 'rb') as f:
                     if (n + lb) % 3 == 0:
